@@ -28,7 +28,7 @@ def wire_append_fns(P):
         for i in f.calls():
             if i.callee and i.callee.startswith("llvm.memcpy"):
                 for t in flow.origins(f, i.args[0]):
-                    if t[0] == "gaddr" and t[1].split(".u")[0] == "buffer" and P.globals.get(t[1], {}).get("size") == 256:
+                    if t[0] == "gaddr" and P.globals.get(t[1], {}).get("internal") and P.globals[t[1]]["type"].startswith("[") and P.globals[t[1]].get("size", 0) >= 128 and not P.globals[t[1]].get("const"):
                         wire.add(f.name)
     return wire
 
@@ -72,7 +72,7 @@ def run(chk, w):
         for i in f.calls():
             if i.callee and i.callee.startswith("llvm.memcpy"):
                 for t in flow.origins(f, i.args[0]):
-                    if t[0] == "gaddr" and t[1].split(".u")[0] == "buffer" and P.globals.get(t[1], {}).get("size") == 256:
+                    if t[0] == "gaddr" and P.globals.get(t[1], {}).get("internal") and P.globals[t[1]]["type"].startswith("[") and P.globals[t[1]].get("size", 0) >= 128 and not P.globals[t[1]].get("const"):
                         wire.add(f.name)
     if not wire:
         raise AnalysisBroken("the function that appends to the send buffer was not found")
